@@ -285,8 +285,23 @@ func TestC03_Bytes(t *testing.T) {
 	corpus := loadCorpusExprs(t)
 	check(t, func(t *rapid.T) {
 		var text string
-		kind := rapid.IntRange(0, 5).Draw(t, "kind")
+		kind := rapid.IntRange(0, 6).Draw(t, "kind")
 		switch kind {
+		case 6:
+			// run-structured bytes: one to four runs of a single byte (or short
+			// unit), each of a length around a typical limit (message caps,
+			// look-back windows, buffers). Uniformly random bytes never produce
+			// a kilobyte of continuation bytes or of opening brackets.
+			units := []string{"\x80", "\xbf", "\xc0", "\xc3", "\xe2", "\xe2\x82", "\xf0", "\xf0\x9f", "\xff", "\x00", "(", "[", "{", "`", "\"", "'", "\\", " ", "\n", "a", "0", "-", "!", "&", "|", ".", "@", "$", "*", "a.", "[0]", "é", "\ufffd", "'\\", "\"\\u", "`\\`"}
+			lens := []int{1, 2, 3, 4, 5, 15, 16, 17, 63, 64, 65, 127, 128, 129, 255, 256, 257, 1023, 1024, 1025, 1026, 4095, 4096, 4097, 8193}
+			var b strings.Builder
+			for k := rapid.IntRange(1, 4).Draw(t, "nruns"); k > 0; k-- {
+				b.WriteString(strings.Repeat(gen.Pick(t, "unit", units), gen.Pick(t, "runlen", lens)))
+				if rapid.IntRange(0, 3).Draw(t, "plusvalid") == 0 {
+					b.WriteString(gen.Pick(t, "corpuspiece", corpus))
+				}
+			}
+			text = b.String()
 		case 0:
 			text = string(rapid.SliceOfN(rapid.Byte(), 0, 40).Draw(t, "bytes"))
 		case 1:
